@@ -72,13 +72,15 @@ def write_inputs(path, inputs):
                 f.write('i %s %d\n' % (nm, item[2]))
 
 
-def replay(binary, entry, inputs, timeout=60, infile=None):
+def replay(binary, entry, inputs, timeout=60, infile=None, env_extra=None):
     """run the native harness on the given input values; returns dict(rc, fails, notes, raw)"""
     infile = infile or (binary + '.%d.in' % os.getpid())
     write_inputs(infile, inputs)
     env = dict(os.environ, SYM_REPLAY=infile, SYM_ENTRY=entry,
                ASAN_OPTIONS='detect_leaks=0:abort_on_error=0:detect_stack_use_after_return=0:exitcode=66',
                UBSAN_OPTIONS='print_stacktrace=1:halt_on_error=1:exitcode=67')
+    if env_extra:
+        env.update(env_extra)
     try:
         r = subprocess.run([binary], env=env, stdout=subprocess.PIPE, stderr=subprocess.PIPE, text=True, timeout=timeout, errors='replace')
         rc, out, err = r.returncode, r.stdout, r.stderr
